@@ -8,8 +8,9 @@ if [ -n "$(git -C /repo status --short)" ]; then echo "/repo is not clean" | tee
 for d in /verif/seeded/*/; do
   id=$(basename "$d")
   prop=$(python3 -c "import json;print(json.load(open('$d/meta.json'))['breaks_property'])")
-  if ! git -C /repo apply --check "$d/patch.diff" 2>/dev/null; then echo "$id $prop PATCH-DOES-NOT-APPLY-AT-HEAD" >> "$out"; continue; fi
-  git -C /repo apply "$d/patch.diff"
+  patch="$d/patch.diff"; [ -f "$d/patch-rebased.diff" ] && patch="$d/patch-rebased.diff"
+  if ! git -C /repo apply --check "$patch" 2>/dev/null; then echo "$id $prop PATCH-DOES-NOT-APPLY-AT-HEAD" >> "$out"; continue; fi
+  git -C /repo apply "$patch"
   CSVERIF_OUT_DIR=/tmp/bg/seeded-regress-evidence timeout 1800 /verif/check "$prop" quick > /tmp/bg/seeded-regress-$id.log 2>&1
   code=$?
   sig=$(grep -m1 -o "violated: \[[^]]*\]" /tmp/bg/seeded-regress-$id.log)
